@@ -188,6 +188,10 @@ func checkC19(c *Ctx) {
 	c.Extra["non_var_registrations"] = others
 	c.Floor("FLAGDEF", 150)
 
+	c.Decides("DEFVALUE-PATCH: nothing assigns the DefValue field of a flag after its registration: the default the help text shows is the one the registration call stored in the option")
+	if sites, _ := c.defValuePatch("DEFVALUE-PATCH", "the default value shown in its help text"); sites > 0 {
+		c.Trivial("DEFVALUE-PATCH", "scan", 0, fmt.Sprintf("%d functions of package cmd scanned", sites))
+	}
 	c.Decides("FLAGDEF-SHADOW: no command registers an option whose name is that of a persistent option of one of its ancestors: cobra (v1.5) then lists only the ancestor's entry in the command's help, with the ancestor's default and meaning, while the command line sets the command's own option")
 	c.flagShadow(regs)
 	byVar := map[types.Object][]*flagReg{}
